@@ -650,7 +650,12 @@ def run(tier):
             r = recs[len(recs) // 3]
             chk.sample({"mode": mode, "build": build, "argv": [show(a) for a in r["argv"]], "env": [show(e) for e in r["env"]],
                         "look": [[show(l["key"]), fmt_res(l["varu"])] for l in r["look"]], "mono": r["mono"]})
-    conformance(chk, stack_pool, 64 if quick else 400)
+    try:
+        conformance(chk, stack_pool, 64 if quick else 400)
+    except (core.ToolError, OSError, ValueError) as e:
+        core.log("C07: algorithm-level conformance not available: %s" % str(e)[:300])
+        chk.extra["model_conformance"] = {"error": str(e)[:300]}
+        chk.extra["model_conformance_ok"] = False
     if not quick:
         action_coverage(chk, "Startup_MC.tla", ["Startup_boot.cfg", "Startup_lookup2.cfg"])
     core.log("C07: judged (t=%.0fs)" % (time.time() - chk.t0))
@@ -658,7 +663,12 @@ def run(tier):
     chk.exhaustive = not quick
     vd = {"%s/%s" % k: vdso_used(b) for k, b in sorted(bins.items()) if k[0] != "dyn-noaux"}
     chk.extra["vdso"] = vd
-    chk.extra["relocation_audit"] = {"%s/%s" % k: reloc_audit(b) for k, b in sorted(bins.items()) if k[0] == "spie"}
+    def safe_audit(b):
+        try:
+            return reloc_audit(b)
+        except (OSError, ValueError, subprocess.SubprocessError) as e:
+            return {"audit_error": str(e)[:200]}
+    chk.extra["relocation_audit"] = {"%s/%s" % k: safe_audit(b) for k, b in sorted(bins.items()) if k[0] == "spie"}
     for k, a in chk.extra["relocation_audit"].items():
         if a and a.get("unrelocated_count"):
             core.log("LEAD (not a verdict): %s: %d relocated word(s) of the running static-PIE probe do not hold base + addend: %s" % (
